@@ -136,3 +136,9 @@ pub fn cleanup_other_fs() {
         let _ = std::fs::remove_dir_all(format!("{}/lv-alt-{}", cand, std::process::id()));
     }
 }
+
+
+/// A symbolic link to /dev/full (used as an archive name on a "device" that refuses every byte).
+pub fn is_full_device_link(p: &std::path::Path) -> bool {
+    std::fs::symlink_metadata(p).map_or(false, |m| m.file_type().is_symlink()) && std::fs::read_link(p).map_or(false, |t| t == std::path::Path::new("/dev/full"))
+}
